@@ -27,7 +27,7 @@ End Ideal.
 Definition geom (c : icase) : nat * nat * nat * nat :=   (* x0, y0, cols, rows *)
   let '(s0, s1, e0, e1) := ic_win c in
   match ic_recv c with
-  | 0 => (0, 0, ic_C c, ic_R c)
+  | 0 | 3 | 4 => (0, 0, ic_C c, ic_R c)
   | _ =>
       let nc := N.to_nat e0 - N.to_nat s0 in
       let nr := N.to_nat e1 - N.to_nat s1 in
@@ -36,7 +36,7 @@ Definition geom (c : icase) : nat * nat * nat * nat :=   (* x0, y0, cols, rows *
 Definition window_ok (c : icase) : bool :=
   let '(s0, s1, e0, e1) := ic_win c in
   match ic_recv c with
-  | 0 => true
+  | 0 | 3 | 4 => true
   | _ => (s0 <=? e0)%N && (s1 <=? e1)%N && (e0 <=? N.of_nat (ic_C c))%N && (e1 <=? N.of_nat (ic_R c))%N
   end.
 
@@ -115,7 +115,8 @@ Definition ideal_output (c : icase) : list N :=
     match start with
     | None => [0%N]      (* col(c) with c out of range panics *)
     | Some q0 =>
-        let b0 := map N.of_nat (seq 0 (ic_C c * ic_R c)) in
+        let spare := match ic_recv c with 3 | 4 => N.to_nat (fst (fst (fst (ic_win c)))) | _ => 0 end in
+        let b0 := map N.of_nat (seq 0 (ic_C c * ic_R c + spare)) in
         let '(o, q, b) := ideal_calls (ic_mut c) 0 q0 (ic_calls c) b0 in
         1%N :: o ++ ideal_term q (match ic_kind c, ic_term c with
                                    | ItCol, TRfold => TFold
